@@ -124,3 +124,24 @@ package decoder
 //@   pure
 //@   ensures 0 <= result && result <= len(s) && (limit >= 0 ==> result <= limit) && (limit < 0 ==> result == 0)
 //@   loop 1 invariant 0 <= i && i <= len(s) && (limit >= 0 ==> i <= limit) && (limit < 0 ==> i == 0)
+
+// findPos (closure of cutFieldsBySize): under what gjson promises about a
+// result (trusted: Raw is the text data[Index : Index+len(Raw)], a string's
+// Raw has both quotes and is at least as long as its unescaped Str), the cut
+// range lies inside the string literal, keeps at most limit raw bytes, and ends
+// exactly at the byte before the closing quote - so the literal stays closed.
+
+//@ func (*jsonDecoder).cutFieldsBySize$1
+//@   ghost gidx int = 0
+//@   ghost graw int = 0
+//@   ensures result1 ==> 0 < result0.start && result0.start <= result0.end + 1 && result0.end + 2 <= len(data)
+//@   ensures result1 ==> result0.end + 2 == gidx + graw
+//@   ensures result1 ==> gidx + 1 <= result0.start && (limit >= 0 ==> result0.start <= gidx + 1 + limit)
+//@   callee GetBytes(json, path) (r)
+//@     pure
+//@     ensures 0 <= r.Index && r.Index + len(r.Raw) <= len(json)
+//@     ensures r.Type == 3 ==> len(r.Raw) >= 2 && len(r.Str) + 2 <= len(r.Raw)
+//@     set gidx := r.Index
+//@     set graw := len(r.Raw)
+//@   callee Exists(t) (r)
+//@     pure
